@@ -95,6 +95,7 @@ type runner struct {
 	rng   *emit.Rand
 	fails []Fail
 	log   []string
+	logMu *sync.Mutex // set when handlers may run concurrently (parallel deletion)
 }
 
 func (r *runner) newStore() {
@@ -110,8 +111,15 @@ func (r *runner) newStore() {
 			h, err := s.GetByHeight(c2, height)
 			cancel()
 			readable := err == nil && h != nil && h.Height() == height
-			r.log = append(r.log, fmt.Sprintf("HObs %d %d %s", k, height, emit.B(readable)))
-			for _, f := range r.fails {
+			if r.logMu != nil {
+				r.logMu.Lock()
+			}
+			r.log = append(r.log, fmt.Sprintf("HObs %d%%nat %d %s", k, height, emit.B(readable)))
+			fails := r.fails
+			if r.logMu != nil {
+				r.logMu.Unlock()
+			}
+			for _, f := range fails {
 				if f.Handler == k && f.Height == height {
 					if f.Panic {
 						panic("scripted handler panic")
